@@ -100,6 +100,11 @@ type pkgFailure struct {
 // checkPackages applies the C14 oracle to the packages one extractor returned for one
 // file. It returns one view per package and the failures found.
 func checkPackages(ex filesystem.Extractor, pkgs []*extractor.Package) (views []pkgView, fails []pkgFailure) {
+	return checkPackagesOpt(ex, pkgs, true)
+}
+
+// checkPackagesOpt: withSweep adds the location-count sweep.
+func checkPackagesOpt(ex filesystem.Extractor, pkgs []*extractor.Package, withSweep bool) (views []pkgView, fails []pkgFailure) {
 	// work on copies carrying what the core library and the layer scanner set
 	cp := make([]*extractor.Package, len(pkgs))
 	for i, p := range pkgs {
@@ -199,6 +204,9 @@ func checkPackages(ex filesystem.Extractor, pkgs []*extractor.Package) (views []
 		strs[i] = views[i].Purl
 	}
 	checkConversions(ex, cp, purls, strs, fail, guard)
+	if !withSweep {
+		return views, fails
+	}
 	// the same packages with 0, 1, 2, 3, 4 and 5+ locations (what nested archives, included
 	// requirement files, go.sum neighbours produce) through the same conversions
 	sw := make([]*extractor.Package, len(cp))
@@ -760,6 +768,29 @@ func placeOSRelease(root string, f *osRelFile) (func(), error) {
 	}, nil
 }
 
+// metadataHasOSFields: some package's metadata struct has an OSID / OSVersionID /
+// OSVersionCodename field (what the OS extractors fill from os-release).
+func metadataHasOSFields(pkgs []*extractor.Package) bool {
+	for _, p := range pkgs {
+		if p == nil || p.Metadata == nil {
+			continue
+		}
+		t := reflect.TypeOf(p.Metadata)
+		for t.Kind() == reflect.Pointer {
+			t = t.Elem()
+		}
+		if t.Kind() != reflect.Struct {
+			continue
+		}
+		for i := 0; i < t.NumField(); i++ {
+			if strings.HasPrefix(t.Field(i).Name, "OS") {
+				return true
+			}
+		}
+	}
+	return false
+}
+
 func bucketLoc(n int) string {
 	if n >= 4 {
 		return "4_or_more"
@@ -909,8 +940,13 @@ func TestC14_fixtures(t *testing.T) {
 				}
 				if vi == 0 {
 					fixturePkgs = len(inv.Packages)
+					if len(variants) > 1 && !metadataHasOSFields(inv.Packages) {
+						// the packages carry nothing read from os-release (homebrew, macapps)
+						variants = variants[:1]
+					}
 				}
-				views, fails := checkPackages(ex, inv.Packages)
+				// (the location-count sweep does not depend on the os-release file)
+				views, fails := checkPackagesOpt(ex, inv.Packages, vi == 0)
 				failBy := map[int][]pkgFailure{}
 				for _, fl := range fails {
 					failBy[fl.idx] = append(failBy[fl.idx], fl)
@@ -932,11 +968,14 @@ func TestC14_fixtures(t *testing.T) {
 					}
 					o := ev.Outcome{
 						NonTrivial: v.Purl != "" && (hasNonAlnum(v.Name) || hasNonAlnum(v.Version)),
-						Classes:    []string{"fixture_package", "extractor_" + ex.Name(), fmt.Sprintf("locations_%s", bucketLoc(len(v.Locations))), fmt.Sprintf("sweep_locations_%s", bucketLoc(v.sweep))},
+						Classes:    []string{"fixture_package", "extractor_" + ex.Name(), fmt.Sprintf("locations_%s", bucketLoc(len(v.Locations)))},
 						Key:        ex.Name() + "\x00" + v.Purl,
 					}
 					if v.Purl == "" {
 						o.Classes = append(o.Classes, "no_purl")
+					}
+					if vi == 0 {
+						o.Classes = append(o.Classes, fmt.Sprintf("sweep_locations_%s", bucketLoc(v.sweep)))
 					}
 					if vclass != "" {
 						o.Classes = append(o.Classes, "os_release_variant", "fixture_"+vclass, "fixture_"+vclass+"_"+ex.Name())
